@@ -996,3 +996,45 @@ E('C03', 'set-via-local', FSM, """                    fsm_event_data.set(
 """, """                    ro = types.MappingProxyType(data) if isinstance(data, MutableMapping) else data
                     fsm_event_data.set(ro)
 """)
+
+# ----------------------------------------------------------------------------- C04
+V('C04', 'f11-reverted', FSM, "            duration, self._timer_expired, timed_event)", "            duration, self.event, timed_event)", 'R04.8')
+V('C04', 'expiry-keeps-handle', FSM, "        self._active_timer = None\n        self.event(timed_event)\n", "        self.event(timed_event)\n", 'R04.8')
+V('C04', 'zero-lt', FSM, "        if duration <= 0.0:\n            self.log_debug(\"timer: zero delay before %s\", timed_event)", "        if duration < 0.0:\n            self.log_debug(\"timer: zero delay before %s\", timed_event)", 'R04.6')
+V('C04', 'cancel-dropped', FSM, """            if not timer.cancelled():
+                timer.cancel()
+                # do not rely on the existence of the private attribute '_scheduled'
+                if getattr(timer, '_scheduled', True):
+                    self.log_debug("timer: cancelled")
+            self._active_timer = None""", """            self._active_timer = None""", 'R04.2')
+V('C04', 'handle-not-stored', FSM, """        self._active_timer = asyncio.get_running_loop().call_later(
+            duration, self._timer_expired, timed_event)""", """        asyncio.get_running_loop().call_later(
+            duration, self._timer_expired, timed_event)""", 'R04.1')
+V('C04', 'stop-without-timer', FSM, "        \"\"\"Cleanup.\"\"\"\n        self._stop_timer()\n        super().stop()", "        \"\"\"Cleanup.\"\"\"\n        super().stop()", 'R04.5')
+V('C04', 'stop-timer-after-state', FSM, """                self._send_events('on_exit')
+                self._stop_timer()
+            assert self._next_event is None""", """                self._send_events('on_exit')
+            assert self._next_event is None""", 'R04.3')
+V('C04', 'shared-defaults', FSM, "            self._duration = self._ct_default_duration.copy()   # copy on write", "            self._duration = self._ct_default_duration   # copy on write", 'R04.6')
+V('C04', 'event-duration-ignored', FSM, "                        self._start_timer(data.get('duration'), timed_event)", "                        self._start_timer(None, timed_event)", 'R04.6')
+V('C04', 'default-beats-event', FSM, """        if duration is not None:
+            duration = utils.time_period(duration)
+        else:
+            duration = self._duration.get(self._state)
+            if duration is None:    # not found or explicitly set to None
+                raise EdzedCircuitError(f"Timer duration for state {self._state!r} not set")
+""", """        default = self._duration.get(self._state)
+        if default is not None:
+            duration = default
+        elif duration is not None:
+            duration = utils.time_period(duration)
+        else:
+            raise EdzedCircuitError(f"Timer duration for state {self._state!r} not set")
+""", 'R04.6')
+V('C04', 'inf-fires', FSM, "        if duration == INF_TIME:\n            return\n", "        if duration == INF_TIME:\n            duration = 0.0\n", 'R04.6')
+V('C04', 'immediate-and-timer', FSM, "            self.event(timed_event)\n            return\n        self._set_timer(duration, timed_event)", "            self.event(timed_event)\n        self._set_timer(duration, timed_event)", 'R04.4')
+V('C04', 'timer-elsewhere', S1, "        self.set_output(0)\n        self._repeated_event.send(self, **data, repeat=0)\n        self._queue.put_nowait(data)", "        self.set_output(0)\n        self._repeated_event.send(self, **data, repeat=0)\n        asyncio.get_running_loop().call_later(self._interval, self._queue.put_nowait, data)", 'R04.1')
+V('C04', 'wrong-timed-event', FSM, "                    timed_event = self._ct_timed_event[newstate]\n                except KeyError:\n                    pass    # new state is not a timed state", "                    timed_event = self._ct_timed_event[etype]\n                except KeyError:\n                    pass    # new state is not a timed state", 'R04.6')
+V('C04', 'timer-table', 'edzed/blocklib/fsms.py', "        'on': (fsm.INF_TIME, 'stop'),\n", "        'on': (fsm.INF_TIME, 'start'),\n", 'R04.9')
+E('C04', 'gt-form', FSM, "        if duration <= 0.0:\n            self.log_debug(\"timer: zero delay before %s\", timed_event)\n            self.event(timed_event)\n            return\n        self._set_timer(duration, timed_event)", "        if duration > 0.0:\n            self._set_timer(duration, timed_event)\n            return\n        self.log_debug(\"timer: zero delay before %s\", timed_event)\n        self.event(timed_event)")
+E('C04', 'expiry-finally', FSM, "        self._active_timer = None\n        self.event(timed_event)\n", "        timer, self._active_timer = self._active_timer, None\n        self.event(timed_event)\n", note='tuple assignment')
